@@ -50,12 +50,14 @@ func (v *Vue) evalInclude(ctx VueContext, node *html.Node, vars map[string]any, 
 		return nil, fmt.Errorf("error parsing %s (included from %s): %w", name, ctx.FormatTemplateChain(), err)
 	}
 
-	// Validate and process template tag
-	processedDom, err := v.evalTemplate(ctx, compDom, ctx.stack.EnvMap(), depth+1)
-	if err != nil {
-		return nil, fmt.Errorf("error in %s (included from %s): %w", name, ctx.FormatTemplateChain(), err)
+	// Validate the :required list of a wrapping <template> up front, so that the error names the component.
+	// The wrapper itself is evaluated, once, together with the rest of the component below.
+	if len(compDom) > 0 && compDom[0].Type == html.ElementNode && compDom[0].Data == "template" && !helpers.HasAttr(compDom[0], "include") {
+		if err := checkRequired(compDom[0], ctx.stack.EnvMap()); err != nil {
+			return nil, fmt.Errorf("error in %s (included from %s): %w", name, ctx.FormatTemplateChain(), err)
+		}
 	}
 
 	childCtx := ctx.WithTemplate(name)
-	return v.evaluate(childCtx, processedDom, depth+1)
+	return v.evaluate(childCtx, compDom, depth+1)
 }
